@@ -501,6 +501,7 @@ def run(sess):
     c01_list.run(sess)
     from . import c01_str
     c01_str.run(sess)
+    c01_str.run_index(sess)
 
 
 META = {
@@ -601,6 +602,22 @@ def replay_witness(w, rp):
     elif k == 'selection':
         from . import c01_slice
         return c01_slice.replay_witness(w, rp)
+    elif k == 'str_index':
+        i, L = w['index'], w['len']
+        if not isinstance(L, int) or L > 2000:
+            return {'reproduced': False, 'role': 'string index', 'detail': 'no small replay'}
+        t = ''.join(chr(ord('a') + (n % 26)) for n in range(L))
+        tu = ''.join(chr(0xe9 + (n % 5)) for n in range(L))
+        cases = [{'kind': 'eval', 'program': 'x[i]', 'vars': {'x': {'str': t}, 'i': {'int': str(i)}}}, {'kind': 'eval', 'program': 'x[i]', 'vars': {'x': {'str': tu}, 'i': {'int': str(i)}}}]
+        exps = []
+        for s_ in (t, tu):
+            try:
+                exps.append(('ok', '"' + s_[i] + '"'))
+            except IndexError:
+                exps.append(('err', None))
+        res = rp.run(cases, 'dev')
+        repro = any(('panic' in g) or (e[0] == 'ok' and g.get('ok') != e[1]) or (e[0] == 'err' and 'err' not in g) for e, g in zip(exps, res))
+        return {'reproduced': repro, 'role': 'string index', 'detail': f'len {L} [{i}] expected {exps}; native {str(res)[:200]}', 'cases': cases}
     elif k == 'str_window':
         from . import c01_str
         return c01_str.replay_witness(w, rp)
